@@ -362,6 +362,10 @@ class Interp:
                 w=resolve(ta).size()*8 if not isinstance(resolve(ta),IntT) else resolve(ta).w
                 env[res]=z3.If(c==1,bv(a,w),bv(b,w))
             return
+        if op=='sitofp':
+            m=re.match(r'(.*) to (.*)$',rest); t1,v=s.typed(env,m.group(1)); t1=resolve(t1)
+            I2D=z3.Function('i2d',z3.BitVecSort(32),z3.BitVecSort(64))
+            env[res]=[I2D(bv(x,32)) for x in v] if isinstance(v,list) else I2D(bv(v,32)); return
         if op in ('zext','sext','trunc','bitcast','ptrtoint','inttoptr'):
             m=re.match(r'(.*) to (.*)$',rest); t1,v=s.typed(env,m.group(1)); t2,_=s.tp.parse(m.group(2)); t1=resolve(t1); t2=resolve(t2)
             env[res]=cast(op,v,t1,t2); return
